@@ -448,6 +448,19 @@ pub proof fn lemma_hypercube_rows(dim: int, x: V, i: int)
     assert(big[i + dim] == mneg(eye(dim))[i]);
 }
 
+// half-space reading of the two rows written by place_axis_bounds
+pub open spec fn axis_row_ok(row: V, b: real, dim: int, axis: int, sign: real, bound: real, unbounded: bool) -> bool {
+    if unbounded { row == vconst(dim, 0real) && b == 1real } else { row == unit_vec(dim, axis, sign) && b == sign * bound }
+}
+
+pub proof fn lemma_axis_row(row: V, b: real, dim: int, axis: int, sign: real, bound: real, unbounded: bool, x: V)
+    requires axis_row_ok(row, b, dim, axis, sign, bound, unbounded), x.len() == dim, 0 <= axis < dim
+    ensures dotp(row, x, dim) <= b <==> (unbounded || sign * x[axis] <= sign * bound)
+{
+    if unbounded { lemma_dotp_zero_left(row, x, dim); }
+    else { lemma_dotp_unit(row, x, dim, axis, sign); }
+}
+
 pub proof fn lemma_sat_rows<I, S: Data<Elem = A>, A: Float, I2, S2: Data<Elem = A>>(p: &AffFuncBase<I, S>, q: &AffFuncBase<I2, S2>, x: V, y: V)
     requires p.mat.nrows() == q.mat.nrows(),
         forall|i: int| 0 <= i < p.mat.nrows() ==> (dotp(#[trigger] p.mat.m()[i], x, x.len() as int) <= p.bias.v()[i] <==> dotp(q.mat.m()[i], y, y.len() as int) <= q.bias.v()[i])
@@ -658,6 +671,62 @@ impl<D: Data<Elem = A>, A: Float + LinalgScalar> AffFuncBase<PolytopeT, D> {
         proof {
             let n = self.mat.ncols();
             assert forall|y: V| y.len() == n implies #[trigger] vsub(y, vconst(n, 0real)) =~= y by {}
+        }
+//@end
+}
+
+
+impl<A: Float> PolytopeG<A> {
+//@fn src/linalg/affine.rs | impl<A: Float> PolytopeG<A> | place_axis_bounds
+//@bodysub assert!(lower <= upper) => assert!(fle(lower, upper))
+//@bodysub -B::one() => fneg(B::one())
+//@bodysub -lower => fneg(lower)
+//@spec
+    requires
+        idx + 1 < old(mat).nrows(), axis < old(mat).ncols(), old(bias).v().len() == old(mat).nrows(),
+        fle_spec(lower, upper), !lower.nan(), !upper.nan(),
+        old(mat).m()[idx as int] == vconst(old(mat).ncols(), 0real), old(mat).m()[idx + 1] == vconst(old(mat).ncols(), 0real),
+    ensures
+        final(mat).nrows() == old(mat).nrows(), final(mat).ncols() == old(mat).ncols(), final(bias).v().len() == old(bias).v().len(),
+        // row idx:  -x[axis] <= -lower  (or the tautology 0 <= 1 for an infinite bound); row idx+1:  x[axis] <= upper
+        axis_row_ok(final(mat).m()[idx as int], final(bias).v()[idx as int], old(mat).ncols(), axis as int, 0real - 1real, lower.rv(), lower.inf()),
+        axis_row_ok(final(mat).m()[idx + 1], final(bias).v()[idx + 1], old(mat).ncols(), axis as int, 1real, upper.rv(), upper.inf()),
+        forall|k: int| 0 <= k < old(mat).nrows() && k != idx && k != idx + 1 ==> final(mat).m()[k] == old(mat).m()[k] && final(bias).v()[k] == old(bias).v()[k],
+//@hint start
+        broadcast use axiom_array2_shape;
+//@hint end
+        proof {
+            let n = old(mat).ncols();
+            assert(vconst(n, 0real).update(axis as int, 0real - 1real) =~= unit_vec(n, axis as int, 0real - 1real));
+            assert(vconst(n, 0real).update(axis as int, 1real) =~= unit_vec(n, axis as int, 1real));
+            assert((0real - 1real) * lower.rv() == -lower.rv()) by(nonlinear_arith);
+            assert(1real * upper.rv() == upper.rv()) by(nonlinear_arith);
+        }
+//@end
+
+//@fn src/linalg/affine.rs | impl<A: Float> PolytopeG<A> | axis_bounds
+//@spec
+    requires axis < dim, fle_spec(lower_bound, upper_bound), !lower_bound.nan(), !upper_bound.nan()
+    ensures r.ok(), r.mat.ncols() == dim,
+        // exactly the points whose `axis` component lies between the (finite) bounds
+        forall|x: V| x.len() == dim ==> (#[trigger] r.sat(x) <==>
+            (lower_bound.inf() || lower_bound.rv() <= x[axis as int]) && (upper_bound.inf() || x[axis as int] <= upper_bound.rv())),
+//@hint start
+        broadcast use axiom_array2_shape;
+//@hint end
+        proof {
+            let m = mat.m(); let b = bias.v();
+            assert forall|x: V| x.len() == dim implies
+                ((forall|i: int| 0 <= i < 2 ==> dotp(#[trigger] m[i], x, x.len() as int) <= b[i]) <==>
+                 (lower_bound.inf() || lower_bound.rv() <= x[axis as int]) && (upper_bound.inf() || x[axis as int] <= upper_bound.rv())) by {
+                lemma_axis_row(m[0], b[0], dim as int, axis as int, 0real - 1real, lower_bound.rv(), lower_bound.inf(), x);
+                lemma_axis_row(m[1], b[1], dim as int, axis as int, 1real, upper_bound.rv(), upper_bound.inf(), x);
+                assert((0real - 1real) * x[axis as int] <= (0real - 1real) * lower_bound.rv() <==> lower_bound.rv() <= x[axis as int]) by(nonlinear_arith);
+                assert(1real * x[axis as int] <= 1real * upper_bound.rv() <==> x[axis as int] <= upper_bound.rv()) by(nonlinear_arith);
+                if forall|i: int| 0 <= i < 2 ==> dotp(#[trigger] m[i], x, x.len() as int) <= b[i] {
+                    assert(dotp(m[0], x, x.len() as int) <= b[0]); assert(dotp(m[1], x, x.len() as int) <= b[1]);
+                }
+            }
         }
 //@end
 }
